@@ -57,6 +57,8 @@ pub mod vxp {
     pub fn work_new<'a>(h: &mut Ghost<PS>, graph: crate::graph::Graph, last_hashes: crate::graph::Hashes, db: crate::db::Writer,
                     options: &'a crate::work::Options, progress: &'a dyn crate::progress::Progress, pools: crate::smallmap::SmallMap<String, usize>) -> (r: Work<'a>)
         requires old(h)@.loaded > 0, !old(h)@.has_work, !old(h)@.failed,
+            // preconditions of Work::run (unit sched): a failure budget of zero would underflow, zero parallelism would stall
+            options.failures_left != Some(0usize), options.parallelism >= 1,
         ensures final(h)@ == (PS { has_work: true, adopt: options.adopt, ..old(h)@ }), r.tasks_run == 0,
     { unimplemented!() }
 
@@ -152,7 +154,9 @@ pub mod vxq {
     /// stands for the call build(args)
     #[verifier::external_body]
     pub fn build(g: &mut Ghost<QS>, args: crate::run::BuildArgs) -> (r: crate::anyhow::Result<Option<usize>>)
-        requires old(g)@.res is None
+        requires old(g)@.res is None,
+            // build()'s own precondition (verified there against Work::new's): what parse_args produced
+            args.options.failures_left != Some(0usize), args.options.parallelism >= 1,
         ensures match r { Ok(x) => final(g)@ == (QS { res: Some(x), ..old(g)@ }), Err(_) => final(g)@ == old(g)@ }
     { unimplemented!() }
     /// println!("n2: no work to do"): exactly when the build succeeded having run zero commands
